@@ -795,3 +795,9 @@ def _unstack(a, axis, **k):
         outs.append(p if isinstance(p, np.ndarray) else _scalar_arr(p))
     return outs
 RULES["device_put"] = lambda *xs, **k: list(xs)
+
+
+@rule("is_finite")
+def _is_finite(a, **k):
+    # symbolic values are reals (finite by the number model); concrete +-inf/nan keep their IEEE answer
+    return ew(lambda x: (not zx.is_special(x)) if zx.conc(x) else True, a)
